@@ -620,6 +620,64 @@ func TestCheck(t *testing.T) {
 	})
 	r.Floor("ragged_cipher_suite_vectors", 60)
 
+	// -- an extensions vector that does not consist of whole extensions (type(2) length(2) data): 1..3 stray bytes alone
+	// or after whole extensions, or an extension whose data is cut short; every enclosing length consistent --
+	r.ParallelW("raggedexts", r.N(8, 80), 1, func(i int, rng *mrand.Rand) {
+		_, cfg, err := ech.NewConfig(uint8(i), []byte(DNSName(rng, 8+rng.IntN(40))))
+		if err != nil {
+			r.Inconclusive("fixture: NewConfig: %v", err)
+			return
+		}
+		contents := cfg[4:]
+		if n := len(contents); n < 2 || contents[n-2] != 0 || contents[n-1] != 0 {
+			r.Inconclusive("fixture: NewConfig no longer ends in an empty extensions vector")
+			return
+		}
+		head := contents[:len(contents)-2]
+		var whole []byte // 0..2 well-formed extensions
+		for k := rng.IntN(3); k > 0; k-- {
+			d := make([]byte, rng.IntN(6))
+			for j := range d {
+				d[j] = byte(rng.IntN(256))
+			}
+			whole = append(whole, byte(0x7a), byte(rng.IntN(256)), 0, byte(len(d))) // high bit clear: not a mandatory extension
+			whole = append(whole, d...)
+		}
+		variants := map[string][]byte{
+			"stray-1": append(append([]byte{}, whole...), 0xfa),
+			"stray-2": append(append([]byte{}, whole...), 0xfa, 0x01),
+			"stray-3": append(append([]byte{}, whole...), 0xfa, 0x01, 0x00),
+			"data-cut": append(append([]byte{}, whole...), 0xfa, 0x01, 0x00, 0x05, 1, 2),
+		}
+		if len(whole) > 0 {
+			variants["control-whole-extensions"] = whole
+		}
+		for name, ext := range variants {
+			nc := append(append([]byte{}, head...), byte(len(ext)>>8), byte(len(ext)))
+			nc = append(nc, ext...)
+			one := append([]byte{cfg[0], cfg[1], byte(len(nc) >> 8), byte(len(nc))}, nc...)
+			list := append([]byte{byte(len(one) >> 8), byte(len(one))}, one...)
+			c := map[string]any{"variant": name, "extensions": mon.Hex(ext), "list": mon.Hex(list)}
+			r.Guard("raggedexts", i, "robust:ragged-extensions", c, func() {
+				_, lerr := ech.ParseConfigList(list)
+				_, serr := ech.Config(one).Spec()
+				r.Eval(fmt.Sprintf("raggedexts|%d|%s|%d", i, name, len(whole)))
+				if name == "control-whole-extensions" {
+					r.Count("whole_extension_vectors_parsed", 1)
+					if lerr != nil || serr != nil {
+						r.Violate("raggedexts", i, "robust:well-formed-extensions-refused", fmt.Sprintf("a config with well-formed (unknown, non-mandatory) extensions was refused: ParseConfigList err=%v, Spec err=%v", lerr, serr), c)
+					}
+					return
+				}
+				r.Count("ragged_extension_vectors", 1)
+				if lerr == nil || serr == nil {
+					r.Violate("raggedexts", i, "robust:ragged-extensions-accepted", fmt.Sprintf("a config whose extensions vector is no sequence of whole extensions (%s; every enclosing length consistent) was accepted: ParseConfigList err=%v, Spec err=%v", name, lerr, serr), c)
+				}
+			})
+		}
+	})
+	r.Floor("ragged_extension_vectors", 30)
+
 	// -- NewConfig --
 	nNew := r.N(512, 60000)
 	r.Parallel("newconfig", nNew, func(i int, rng *mrand.Rand) {
